@@ -149,7 +149,7 @@ def f32b(v):
     """f32 bits the glue would extract from value node v (float/int/bool), or None."""
     if v[0] == "f":
         return lmcore.f64_to_f32bits(v[1])
-    if v[0] == "i" and abs(v[1]) < 2 ** 1023:
+    if v[0] == "i" and abs(v[1]) < 2 ** 1024 - 2 ** 970:   # float(int): OverflowError from there on
         return lmcore.f32bits(float(v[1]))
     if v[0] in "TF":
         return lmcore.f32bits(1.0 if v[0] == "T" else 0.0)
@@ -159,7 +159,7 @@ def f32b(v):
 def f64b(v):
     if v[0] == "f":
         return v[1]
-    if v[0] == "i" and abs(v[1]) < 2 ** 1023:
+    if v[0] == "i" and abs(v[1]) < 2 ** 1024 - 2 ** 970:
         return lmcore.f64bits(float(v[1]))
     if v[0] in "TF":
         return lmcore.f64bits(1.0 if v[0] == "T" else 0.0)
